@@ -239,7 +239,14 @@ fn no_esc(check: char, match_char: char, previous: char) -> bool {
 /// # Return
 /// * `Token`
 ///
-fn group_tokens(tokens: &Vec<Token>, mut index: usize) -> Token {
+fn group_tokens(tokens: &Vec<Token>, index: usize) -> Token {
+    let (token, _) = group_tokens_from(tokens, index);
+    return token;
+} // group_tokens
+
+// Does the work of group_tokens(). Also returns the index of the
+// right parenthesis which ended the group (or the number of tokens).
+fn group_tokens_from(tokens: &Vec<Token>, mut index: usize) -> (Token, usize) {
 
     let mut new_tokens: Vec<Token> = vec![];
     let size = tokens.len();
@@ -252,14 +259,15 @@ fn group_tokens(tokens: &Vec<Token>, mut index: usize) -> Token {
         if the_type == TokenType::LParen {
             index += 1;
             // Make a GROUP token.
-            let t = group_tokens(tokens, index);
-            // Skip past tokens already processed.
+            let (t, right_paren) = group_tokens_from(tokens, index);
+            // Skip past tokens already processed. A group may hold
+            // other groups, so its children cannot be counted.
             // +1 for right parenthesis
-            index += t.number_of_children() + 1;
+            index = right_paren + 1;
             new_tokens.push(t);
         } else if the_type == TokenType::RParen {
             // Add all remaining tokens to the list.
-            return make_branch_token(TokenType::Group, new_tokens);
+            return (make_branch_token(TokenType::Group, new_tokens), index);
         } else {
             new_tokens.push(token);
         }
@@ -267,9 +275,9 @@ fn group_tokens(tokens: &Vec<Token>, mut index: usize) -> Token {
 
     } // for
 
-    return make_branch_token(TokenType::Group, new_tokens)
+    return (make_branch_token(TokenType::Group, new_tokens), index);
 
-} // group_tokens
+} // group_tokens_from
 
 
 /// group_and_tokens()
